@@ -14,19 +14,20 @@ which the input is expressed" does not exist in the model; that `DateTime<Tz>` v
 zones are first converted (`with_timezone`) is checked by the correspondence suite (`tz.*` ops
 build the input in a different zone).
 
-Status of the clauses (details at each theorem):
+Status of the clauses (details at each theorem), for the code with the walk back in
+`TzLocation::datetime` (minute loop, then back second by second while the local time still exists):
 * `naive`/`datetime` laws: proved for every `ZoneOK` table.
-* "first valid instant after it": proved under `GapMinuteAligned` (or `n` having the phase of the
-  gap end); otherwise the result is up to 59.999 999 999 s late: `datetime_gap` gives the exact
-  value, `datetime_gap_late_witness` a table of the installed database (Africa/Monrovia 1972).
-* `datetime_mono` is FALSE in general (`datetime_mono_false`, Europe/Paris 2024); true forms:
-  `datetime_mono_aligned`, `datetime_mono_congr`.
-* localized = naive evaluation: `iter_range` and `next_change` in full; `state` only when no
-  transition falls in the minute after `t` (`state_localized_partial`); before a backward
-  transition `state` answers `closed` for every expression (`state_closed_before_fold`).
-* bounds never go backwards: `bounds_never_go_backwards_partial` (needs `GapMinuteAligned`);
-  refuted without it (`bounds_go_backwards_witness`).  Bounds can be EQUAL: D16
-  (`D16_empty_interval_witness`, class `localSpanInGap`: `D16_class`).
+* "first valid instant after it": `datetime_gap_first_valid` for every whole-second `n` in a table
+  with transitions on whole seconds (`WholeSeconds`, every chrono-tz table) — no alignment of gaps on
+  the minute grid needed; in general `datetime_gap` gives the exact value `T + (n - b) mod 1 s`.
+* `datetime_mono` is still FALSE for arguments with different sub-second phases inside a gap
+  (`datetime_mono_false`); true forms: `datetime_mono_aligned`, `datetime_mono_congr`.
+* localized = naive evaluation: `iter_range`, `next_change` and `state` (`state_localized`) in full.
+* bounds never go backwards: `bounds_never_go_backwards`, FULL for `WholeSeconds` tables.
+  Bounds can be EQUAL: D16 (`D16_empty_interval_witness`, class `localSpanInGap`: `D16_class`) —
+  a C02 matter (non-empty intervals), not a C09 violation.
+* Representability hypotheses `instMin ≤ n` appear because the walk back subtracts seconds
+  (`NaiveDateTime - TimeDelta` panics below `NaiveDateTime::MIN`; unreachable: `datetime_no_panic`).
 -/
 import OH.Proofs.Tz
 namespace OH.Props.C09
@@ -114,23 +115,27 @@ theorem datetime_picks_later_when_ambiguous {z : Zone} (hz : ZoneOK z) {n u₁ u
 
 /-! ## `datetime` on local times that do not exist -/
 
+/-- transitions on whole seconds (decidable: `secondsAligned`; true of every chrono-tz table) -/
+def WholeSeconds (z : Zone) : Prop := secondsAligned z = true
+instance (z : Zone) : Decidable (WholeSeconds z) := by unfold WholeSeconds; infer_instance
+
 /-- `n` does not exist: it is skipped by a forward jump at instant `T`, landing on local time `b`.
 No local time in `[n, b)` exists, `b` is shown at `T` only — so `T` is the first valid instant
-after `n` — and the loop returns `T + r`, `r = (n - b) mod 1 min < 1 min`: the first minute step of
-`n` at/after the end of the gap. -/
+after `n` — and `datetime` (minute loop + walk back by seconds) returns `T + (n - b) mod 1 s`:
+`T` itself whenever `n` and `b` are whole seconds, otherwise `T` plus the sub-second phase. -/
 theorem datetime_gap {z : Zone} (hz : ZoneOK z) (hend : EndsBefore z instMax) {n : Int}
-    (hn : ¬ Valid z n) :
+    (hmin : instMin ≤ n) (hn : ¬ Valid z n) :
     ∃ T a b, gapOf z n = some (T, a, b) ∧ a ≤ n ∧ n < b ∧
       (∀ m, n ≤ m → m < b → ¬ Valid z m) ∧
       naive z T = b ∧ (∀ u, naive z u = b → u = T) ∧
-      datetime z n = .ok (T + (n - b) % nsPerMin) ∧
-      0 ≤ (n - b) % nsPerMin ∧ (n - b) % nsPerMin < nsPerMin := by
+      datetime z n = .ok (T + (n - b) % nsPerSec) ∧
+      0 ≤ (n - b) % nsPerSec ∧ (n - b) % nsPerSec < nsPerSec := by
   have hl : latest? z n = none := by
     apply Classical.byContradiction
     intro hc
     exact hn ((valid_iff_latest hz n).mpr hc)
-  obtain ⟨T, a, b, g1, g2, g3, g4, g5, g6⟩ := datetime_gap_core hz.sorted hz.spaced hl hend
-  refine ⟨T, a, b, g1, g2, g3, ?_, ?_, ?_, g6, emod_min_nonneg _, emod_min_lt _⟩
+  obtain ⟨T, a, b, g1, g2, g3, g4, g5, g6⟩ := datetime_gap_core hz.sorted hz.spaced hl hend hmin
+  refine ⟨T, a, b, g1, g2, g3, ?_, ?_, ?_, g6, emod_sec_nonneg _, emod_sec_lt _⟩
   · intro m h1 h2 hv
     exact (valid_iff_latest hz m).mp hv (g4 m h1 h2)
   · have := g5 0 (by omega) (by simp [nsPerMin])
@@ -146,24 +151,37 @@ theorem datetime_gap {z : Zone} (hz : ZoneOK z) (hend : EndsBefore z instMax) {n
     rw [this] at hm
     simpa using hm
 
-/-- the full clause — "the first valid instant after it" — when the gap end is a whole number of
-minutes after `n` (always the case for whole-minute `n` in a `GapMinuteAligned` zone) -/
-theorem datetime_gap_first_valid {z : Zone} (hz : ZoneOK z) (hend : EndsBefore z instMax) {n : Int}
-    (hn : ¬ Valid z n) :
-    ∃ T a b, gapOf z n = some (T, a, b) ∧ ((b - n) % nsPerMin = 0 → datetime z n = .ok T) := by
-  obtain ⟨T, a, b, g1, _, _, _, _, _, g6, _, _⟩ := datetime_gap hz hend hn
-  refine ⟨T, a, b, g1, ?_⟩
-  intro hal
-  have : (n - b) % nsPerMin = 0 := by simp only [nsPerMin] at *; omega
-  rw [g6, this, Int.add_zero]
+/-- the value of `datetime` on the class `gapOf z n = some (T, a, b)` -/
+theorem datetime_gap_value {z : Zone} (hz : ZoneOK z) (hend : EndsBefore z instMax) {n T a b : Int}
+    (hmin : instMin ≤ n) (hg : gapOf z n = some (T, a, b)) :
+    datetime z n = .ok (T + (n - b) % nsPerSec) := by
+  have hn : ¬ Valid z n := by
+    intro hv
+    apply (valid_iff_latest hz n).mp hv
+    apply (gapOf_isSome_iff hz.sorted hz.spaced n).mp
+    rw [hg]; rfl
+  obtain ⟨T', a', b', g1, _, _, _, _, _, g7, _, _⟩ := datetime_gap hz hend hmin hn
+  rw [hg] at g1
+  cases g1
+  exact g7
 
-theorem datetime_gap_first_valid_of_aligned {z : Zone} (hz : ZoneOK z) (hal : GapMinuteAligned z)
-    (hend : EndsBefore z instMax) {n : Int} (hn : ¬ Valid z n) (hmin : n % nsPerMin = 0) :
-    ∃ T a b, gapOf z n = some (T, a, b) ∧ datetime z n = .ok T := by
-  obtain ⟨T, a, b, g1, g2⟩ := datetime_gap_first_valid hz hend hn
-  refine ⟨T, a, b, g1, g2 ?_⟩
-  have := gap_end_aligned (gapOf_eq z n ▸ g1) hal
-  simp only [nsPerMin] at *; omega
+/-- the full clause — "the first valid instant after it" — for every whole-second `n` in a
+whole-second table: no alignment of the gap on the minute grid is needed any more -/
+theorem datetime_gap_first_valid {z : Zone} (hz : ZoneOK z) (hsec : WholeSeconds z)
+    (hend : EndsBefore z instMax) {n : Int} (hmin : instMin ≤ n) (hn : ¬ Valid z n)
+    (hws : n % nsPerSec = 0) :
+    ∃ T a b, gapOf z n = some (T, a, b) ∧ naive z T = b ∧ (∀ m, n ≤ m → m < b → ¬ Valid z m) ∧
+      datetime z n = .ok T := by
+  obtain ⟨T, a, b, g1, _, _, g4, g5, _, g7, _, _⟩ := datetime_gap hz hend hmin hn
+  refine ⟨T, a, b, g1, g5, g4, ?_⟩
+  have hb : b % nsPerSec = 0 := by
+    apply gap_end_seconds (gapOf_eq z n ▸ g1)
+    have h := hsec
+    unfold WholeSeconds secondsAligned at h
+    simp only [List.all_eq_true, decide_eq_true_eq] at h
+    exact h
+  have : (n - b) % nsPerSec = 0 := by simp only [nsPerSec] at *; omega
+  rw [g7, this, Int.add_zero]
 
 /-! ### witnesses: tables of the installed database (tzdb 2025a) -/
 
@@ -174,48 +192,52 @@ def paris2024 : Zone := ⟨3600, [(63847530000000000000, 7200), (638656740000000
 def monrovia1972 : Zone := ⟨-2670, [(62199276270000000000, 0)]⟩
 
 example : ZoneOK paris2024 := by decide
-example : GapMinuteAligned paris2024 := by decide
+example : WholeSeconds paris2024 := by decide
 example : EndsBefore paris2024 instEnd := by decide
 example : ZoneOK monrovia1972 := by decide
+example : WholeSeconds monrovia1972 := by decide
 example : ¬ GapMinuteAligned monrovia1972 := by decide
 
-/-- otherwise the result is late: 1972-01-07 00:00 in Monrovia does not exist, the first valid
-instant after it is 00:44:30 UTC, `datetime` answers 00:45:00 UTC (30 s later) -/
-theorem datetime_gap_late_witness :
-    gapOf monrovia1972 62199273600000000000 = some (62199276270000000000, 62199273600000000000, 62199276270000000000) ∧
-    datetime monrovia1972 62199273600000000000 = .ok (62199276270000000000 + 30000000000) := by
-  refine ⟨by decide, ?_⟩
-  apply datetime_steps 45
-  · decide
-  · decide
-  · decide
+/-- 1972-01-07 00:00 in Monrovia does not exist; the gap ends at 00:44:30 (off the minute grid);
+`datetime` now answers the first valid instant 00:44:30 UTC (it answered 00:45:00 UTC before the
+walk back was added) -/
+theorem datetime_gap_unaligned_witness :
+    datetime monrovia1972 62199273600000000000 = .ok 62199276270000000000 :=
+  datetime_gap_value (z := monrovia1972) (by decide) (by decide) (by decide)
+    (by decide : gapOf monrovia1972 62199273600000000000 =
+      some (62199276270000000000, 62199273600000000000, 62199276270000000000))
 
 /-! ## `datetime_mono` -/
 
-/-- `n ≤ n' → datetime n ≤ datetime n'` is FALSE: in Paris on 2024-03-31, `02:58:59` is mapped to
-`03:00:59 +02` (two minute steps) and `02:59:00` to `03:00:00 +02` (one step) -/
+/-- `n ≤ n' → datetime n ≤ datetime n'` is still FALSE for arguments with different sub-second
+phases inside a gap: in Paris on 2024-03-31, `02:58:59.9` is mapped to `03:00:00.9 +02` and the later
+`02:59:00.0` to `03:00:00.0 +02` -/
 theorem datetime_mono_false :
-    ∃ (z : Zone) (n n' u u' : Int), ZoneOK z ∧ GapMinuteAligned z ∧ n ≤ n' ∧
+    ∃ (z : Zone) (n n' u u' : Int), ZoneOK z ∧ WholeSeconds z ∧ n ≤ n' ∧
       datetime z n = .ok u ∧ datetime z n' = .ok u' ∧ u' < u := by
-  refine ⟨paris2024, 63847537139000000000, 63847537140000000000,
-    63847530059000000000, 63847530000000000000, by decide, by decide, by decide, ?_, ?_, by decide⟩
-  · apply datetime_steps 2 <;> decide
-  · apply datetime_steps 1 <;> decide
+  refine ⟨paris2024, 63847537139900000000, 63847537140000000000,
+    63847530000900000000, 63847530000000000000, by decide, by decide, by decide, ?_, ?_, by decide⟩
+  · exact datetime_gap_value (z := paris2024) (by decide) (by decide) (by decide)
+      (by decide : gapOf paris2024 63847537139900000000 =
+        some (63847530000000000000, 63847533600000000000, 63847537200000000000))
+  · exact datetime_gap_value (z := paris2024) (by decide) (by decide) (by decide)
+      (by decide : gapOf paris2024 63847537140000000000 =
+        some (63847530000000000000, 63847533600000000000, 63847537200000000000))
 
-/-- true form 1 (what the evaluator needs): the smaller argument exists or is a whole minute, in a
-zone whose forward jumps land on whole minutes -/
-theorem datetime_mono_aligned {z : Zone} (hz : ZoneOK z) (hal : GapMinuteAligned z)
-    (hend : EndsBefore z instMax) {n n' u u' : Int} (hle : n ≤ n')
-    (hn : n % nsPerMin = 0 ∨ Valid z n)
+/-- true form 1 (what the evaluator needs): the smaller argument exists or is a whole second
+(every bound the evaluator produces is a whole minute or an existing local time) -/
+theorem datetime_mono_aligned {z : Zone} (hz : ZoneOK z) (hsec : WholeSeconds z)
+    (hend : EndsBefore z instMax) {n n' u u' : Int} (hmin : instMin ≤ n) (hle : n ≤ n')
+    (hn : n % nsPerSec = 0 ∨ Valid z n)
     (hu : datetime z n = .ok u) (hu' : datetime z n' = .ok u') : u ≤ u' :=
-  OH.Proofs.Tz.datetime_mono_aligned hz.sorted hz.spaced hal hend hle
+  OH.Proofs.Tz.datetime_mono_aligned hz.sorted hz.spaced hsec hend hmin hle
     (hn.imp id (valid_iff_latest hz n).mp) hu hu'
 
-/-- true form 2: both arguments have the same phase within the minute (any `ZoneOK` zone) -/
+/-- true form 2: both arguments have the same phase within the second (any `ZoneOK` zone) -/
 theorem datetime_mono_congr {z : Zone} (hz : ZoneOK z) (hend : EndsBefore z instMax)
-    {n n' u u' : Int} (hle : n ≤ n') (hc : (n' - n) % nsPerMin = 0)
+    {n n' u u' : Int} (hmin : instMin ≤ n) (hle : n ≤ n') (hc : (n' - n) % nsPerSec = 0)
     (hu : datetime z n = .ok u) (hu' : datetime z n' = .ok u') : u ≤ u' :=
-  OH.Proofs.Tz.datetime_mono_congr hz.sorted hz.spaced hend hle hc hu hu'
+  OH.Proofs.Tz.datetime_mono_congr hz.sorted hz.spaced hend hmin hle hc hu hu'
 
 /-- on existing local times `datetime` is strictly increasing -/
 theorem datetime_strictMono_valid {z : Zone} (hz : ZoneOK z) {n n' u u' : Int} (hlt : n < n')
@@ -236,9 +258,11 @@ theorem datetime_strictMono_valid {z : Zone} (hz : ZoneOK z) {n n' u u' : Int} (
 
 /-! ## panic freedom of the loop -/
 
-/-- `expect("no valid datetime for time zone")` is unreachable (no `ZoneOK` needed) -/
-theorem datetime_no_panic {z : Zone} (hend : EndsBefore z instMax) {n : Int} (hn : n ≤ instMax) :
-    ∃ u, datetime z n = .ok u := OH.Proofs.Tz.datetime_no_panic hend n hn
+/-- neither `expect("no valid datetime for time zone")` nor the `naive -= 1 s` of the walk back can
+panic for a representable `n` (no `ZoneOK` needed) -/
+theorem datetime_no_panic {z : Zone} (hend : EndsBefore z instMax) {n : Int}
+    (hlo : instMin ≤ n) (hn : n ≤ instMax) :
+    ∃ u, datetime z n = .ok u := OH.Proofs.Tz.datetime_no_panic hend n hlo hn
 
 /-- the loop makes at most 2·1440 steps: a gap is shorter than two days because
 `|offset| < 86 400 s` (a fuel of 2880 would suffice; the model uses the measure `lastLocal z - n`) -/
@@ -259,12 +283,11 @@ theorem datetime_steps_le_2880 {z : Zone} (hz : ZoneOK z) {n : Int} (hn : ¬ Val
 
 /-! ## localized evaluation = naive evaluation at the wall-clock time
 
-`env` is any day level (`envOf ctx e` for an expression); `stateNL`/`nextChangeNL`/`iterRangeG` are
-the `NoLocation` API over it.  `stateNL` follows the repaired `state` (closed from `DATE_END` on
-before the window is built; `OH.Model.state` still has the previous body, equal below `DATE_END`). -/
+`env` is any day level (`envOf ctx e` for an expression); `stateG`/`nextChangeG`/`iterRangeG`
+(`OH/Model/Iter.lean`) are the `NoLocation` API over it. -/
 
-example (ctx : Ctx) (e : Expr) (t : Int) : stateNL (envOf ctx e) t = state ctx e t := rfl
-example (ctx : Ctx) (e : Expr) (t : Int) : nextChangeNL (envOf ctx e) t = nextChange ctx e t := rfl
+example (ctx : Ctx) (e : Expr) (t : Int) : stateG (envOf ctx e) t = state ctx e t := rfl
+example (ctx : Ctx) (e : Expr) (t : Int) : nextChangeG (envOf ctx e) t = nextChange ctx e t := rfl
 example (ctx : Ctx) (e : Expr) (f t : Int) : iterRangeG (envOf ctx e) f t = iterRangeNaive ctx e f t := rfl
 
 /-- `iter_range`: the naive iteration between the wall-clock times of the bounds, each bound
@@ -288,87 +311,155 @@ theorem iterRange_bounds_mapped {z : Zone} {l out : List Interval} (h : mapInter
   obtain ⟨x, hx, hm⟩ := mapIntervals_mem h y hy
   exact ⟨x, hx, mapInterval_spec hm⟩
 
-/-- `state`, FULL statement `stateTz e ctx z t = state e ctx (naive z t)`: false (next theorem).
-Proved when no transition falls in the minute after `t`. -/
-theorem state_localized_partial {env : Env} {z : Zone} {t : Int} (hend : EndsBefore z instMax)
-    (h1 : t + nsPerMin ≤ instMax) (hlo : instMin ≤ naive z t) (hhi : naive z t + nsPerMin ≤ instMax)
-    (hno : ∀ p ∈ z.trans, ¬ (t < p.1 ∧ p.1 ≤ t + nsPerMin)) :
-    stateTzG env z t = stateNL env (naive z t) :=
-  stateTzG_eq hend h1 hlo hhi (naive_add (by simp [nsPerMin]) hno)
+/-- `state`: the state at an absolute instant is the NoLocation state at its wall-clock time in
+the context zone — for every table (no `ZoneOK` needed); the only hypothesis is that the wall-clock
+time is representable (`naive_local()` panics otherwise).
+(The unrepaired `state` built the window `naive t .. naive (t + 1 min)`, which is empty during the
+minute before clocks are set back: it answered `closed` for `24/7` at 2024-10-27 00:59:30Z in
+Europe/Paris.  Fixed in /repo b0d5731, the witness is kept as an op line of the `tz` suite.) -/
+theorem state_localized {env : Env} {z : Zone} {t : Int}
+    (hlo : instMin ≤ naive z t) (hhi : naive z t ≤ instMax) :
+    stateTzG env z t = stateG env (naive z t) := stateTzG_eq hlo hhi
 
-/-- refutation of the full statement, as a class: when the clock is set back within the minute
-after `t` (by at least what is left of the minute) the window `naive t .. naive (t + 1 min)` is
-empty and `state` answers `closed` WHATEVER the expression (e.g. `24/7`) -/
-theorem state_closed_before_fold {env : Env} {z : Zone} {t : Int} {k : Kind}
-    (hfold : naive z (t + nsPerMin) ≤ naive z t) (h : stateTzG env z t = .ok k) : k = .closed :=
-  stateTzG_closed_of_fold hfold h
-
-/-- concrete instance of the class: Paris, 2024-10-27 00:59:30 UTC (02:59:30 CEST, 30 s before
-the clock is set back to 02:00 CET) -/
-theorem state_closed_before_fold_witness :
-    naive paris2024 (63865673970000000000 + nsPerMin) ≤ naive paris2024 63865673970000000000 := by
-  decide
+/-- the same for an expression: `stateTz e ctx z t = state e ctx (naive z t)` -/
+theorem state_localized_expr (ctx : Ctx) (e : Expr) {z : Zone} {t : Int}
+    (hlo : instMin ≤ naive z t) (hhi : naive z t ≤ instMax) :
+    stateTz ctx e z t = state ctx e (naive z t) := stateTzG_eq hlo hhi
 
 /-- `next_change`: `some c` is mapped by `datetime` … -/
 theorem nextChange_localized_some {env : Env} {z : Zone} {t c : Int} (hz : ZoneOK z)
     (hend : EndsBefore z instEnd) (hlo : instMin ≤ naive z t) (hhi : naive z t ≤ instMax)
-    (h : nextChangeNL env (naive z t) = .ok (some c)) (hc : instMin ≤ c) :
+    (h : nextChangeG env (naive z t) = .ok (some c)) (hc : instMin ≤ c) :
     ∃ u, datetime z c = .ok u ∧ nextChangeTzG env z t = .ok (some u) :=
   nextChangeTzG_some hz.sorted hend hlo hhi h hc
 
 /-- … `none` stays `none` … -/
 theorem nextChange_localized_none {env : Env} {z : Zone} {t : Int} (hz : ZoneOK z)
     (hend : EndsBefore z instEnd) (hlo : instMin ≤ naive z t) (hhi : naive z t ≤ instMax)
-    (h : nextChangeNL env (naive z t) = .ok none) : nextChangeTzG env z t = .ok none :=
+    (h : nextChangeG env (naive z t) = .ok none) : nextChangeTzG env z t = .ok none :=
   nextChangeTzG_none hz.sorted hend hlo hhi h
 
 /-- … and a panic of the naive evaluation is the same panic -/
 theorem nextChange_localized_error {env : Env} {z : Zone} {t : Int} {p : String} (hz : ZoneOK z)
     (hend : EndsBefore z instEnd) (hlo : instMin ≤ naive z t) (hhi : naive z t ≤ instMax)
-    (h : nextChangeNL env (naive z t) = .error p) : nextChangeTzG env z t = .error p :=
+    (h : nextChangeG env (naive z t) = .error p) : nextChangeTzG env z t = .error p :=
   nextChangeTzG_error hz.sorted hend hlo hhi h
 
 /-! ## returned interval bounds never go backwards -/
 
-/-- FULL statement (for every `ZoneOK` zone): refuted by `bounds_go_backwards_witness`.
-Proved for `GapMinuteAligned` zones.  `Ordered l` (each naive interval has `start ≤ stop`, each
-interval ends before the later ones start) is the tiling property of the naive iterator, C02
-Layer A — a hypothesis here, checked on the implementation's output by the `ev`/`tz` drivers. -/
-theorem bounds_never_go_backwards_partial {env : Env} {z : Zone} {f t : Int} {l out : List Interval}
-    (hz : ZoneOK z) (hal : GapMinuteAligned z) (hend : EndsBefore z instMax)
+/-- FULL statement, for every `ZoneOK` table with transitions on whole seconds (every chrono-tz
+table): the mapped intervals are ordered like the naive ones.  `Ordered l` (each naive interval has
+`start ≤ stop`, each interval ends before the later ones start) is the tiling property of the naive
+iterator, C02 Layer A — a hypothesis here, checked on the implementation's output by the drivers.
+(Before the walk back was added to `datetime` this needed `GapMinuteAligned z` and failed in
+Africa/Monrovia 1972: `00:45:00Z .. 00:44:45Z`.) -/
+theorem bounds_never_go_backwards {env : Env} {z : Zone} {f t : Int} {l out : List Interval}
+    (hz : ZoneOK z) (hsec : WholeSeconds z) (hend : EndsBefore z instMax)
+    (hf : instMin ≤ naive z f)
     (hl : iterRangeG env (min instEnd (naive z f)) (min instEnd (naive z t)) = .ok l)
     (hord : Ordered l) (hout : mapIntervals z l = .ok out) : Ordered out := by
   have hcls := iterRangeG_class hl
   simp only [clamp_idem] at hcls
-  -- every bound is a whole minute or an existing local time
-  have hC : ∀ iv ∈ l, (iv.start % nsPerMin = 0 ∨ Valid z iv.start) ∧
-      (iv.stop % nsPerMin = 0 ∨ Valid z iv.stop) := by
+  have hie := instMin_le_instEnd
+  -- every bound is representable, and a whole second or an existing local time
+  have hC : ∀ iv ∈ l, (instMin ≤ iv.start ∧ (iv.start % nsPerSec = 0 ∨ Valid z iv.start)) ∧
+      (instMin ≤ iv.stop ∧ (iv.stop % nsPerSec = 0 ∨ Valid z iv.stop)) := by
     have key : ∀ (w x : Int), (x % nsPerMin = 0 ∨ x = min instEnd (naive z w)) →
-        (x % nsPerMin = 0 ∨ Valid z x) := by
+        (x % nsPerSec = 0 ∨ Valid z x) := by
       intro w x hx
       rcases hx with h | h
-      · exact Or.inl h
+      · left; simp only [nsPerMin, nsPerSec] at *; omega
       · by_cases hc : naive z w ≤ instEnd
         · right; exact ⟨w, by omega⟩
-        · left; rw [h]; have := instEnd_aligned; simp only [nsPerMin] at *; omega
+        · left; rw [h]; have := instEnd_aligned; simp only [nsPerMin, nsPerSec] at *; omega
     intro iv hiv
-    exact ⟨key f _ (hcls iv hiv).1, key t _ (hcls iv hiv).2⟩
-  exact mapIntervals_ordered (fun x => x % nsPerMin = 0 ∨ Valid z x)
-    (fun a b ua ub hab hCa hua hub => datetime_mono_aligned hz hal hend hab hCa hua hub)
+    obtain ⟨c1, c2, c3⟩ := hcls iv hiv
+    have hss := hord.1 iv hiv
+    exact ⟨⟨by omega, key f _ c1⟩, ⟨by omega, key t _ c2⟩⟩
+  exact mapIntervals_ordered (fun x => instMin ≤ x ∧ (x % nsPerSec = 0 ∨ Valid z x))
+    (fun a b ua ub hab hCa hua hub => datetime_mono_aligned hz hsec hend hCa.1 hab hCa.2 hua hub)
     hout hC hord
 
-/-- refutation without `GapMinuteAligned`: in Monrovia the naive interval
-`1972-01-07 00:00 .. 00:44:45` (start: a whole minute inside the gap, end: an existing local time,
-e.g. the clipped `to` of `iter_range`) is mapped to `00:45:00Z .. 00:44:45Z` -/
-theorem bounds_go_backwards_witness :
-    ∃ (z : Zone) (a b ua ub : Int), ZoneOK z ∧ a ≤ b ∧ a % nsPerMin = 0 ∧ Valid z b ∧
-      datetime z a = .ok ua ∧ datetime z b = .ok ub ∧ ub < ua := by
-  refine ⟨monrovia1972, 62199273600000000000, 62199276285000000000,
-    62199276300000000000, 62199276285000000000, by decide, by decide, by decide,
-    ⟨62199276285000000000, by decide⟩, datetime_gap_late_witness.2, ?_, by decide⟩
-  apply datetime_steps 0 <;> decide
+/-- the former witness of the violation, Monrovia `1972-01-07 00:00 .. 00:44:45`, is now ordered:
+`00:44:30Z .. 00:44:45Z` -/
+theorem bounds_former_witness :
+    datetime monrovia1972 62199273600000000000 = .ok 62199276270000000000 ∧
+    datetime monrovia1972 62199276285000000000 = .ok 62199276285000000000 := by
+  refine ⟨datetime_gap_unaligned_witness, ?_⟩
+  exact datetime_of_some (by decide)
 
-/-! ## D16: bounds can be equal (empty intervals) -/
+/-! ## the former finding classes, as decidable predicates on (table, naive instants) -/
+
+/-- class `unaligned-gap` (sub-second phase only): the returned instant is `(n - b) mod 1 s > 0`
+after the first valid instant `T` -/
+theorem unalignedGap_class {z : Zone} (hz : ZoneOK z) (hend : EndsBefore z instMax) {n : Int}
+    (hmin : instMin ≤ n) (h : unalignedGap z n = true) :
+    ∃ T a b, gapOf z n = some (T, a, b) ∧ naive z T = b ∧ (∀ m, n ≤ m → m < b → ¬ Valid z m) ∧
+      datetime z n = .ok (T + (n - b) % nsPerSec) ∧ 0 < (n - b) % nsPerSec ∧ (n - b) % nsPerSec < nsPerSec := by
+  have hn : ¬ Valid z n := by
+    intro hv
+    apply (valid_iff_latest hz n).mp hv
+    apply (gapOf_isSome_iff hz.sorted hz.spaced n).mp
+    unfold unalignedGap at h
+    split at h
+    · rename_i heq; rw [heq]; rfl
+    · cases h
+  obtain ⟨T, a, b, g1, _, _, g4, g5, _, g7, g8, g9⟩ := datetime_gap hz hend hmin hn
+  refine ⟨T, a, b, g1, g5, g4, g7, ?_, g9⟩
+  unfold unalignedGap at h
+  rw [g1] at h
+  simp only [decide_eq_true_eq] at h
+  omega
+
+/-- … which no whole-second `n` belongs to in a whole-second table: the class is empty on naive
+results (whole minutes) -/
+theorem unalignedGap_false {z : Zone} (hsec : WholeSeconds z) {n : Int} (hws : n % nsPerSec = 0) :
+    unalignedGap z n = false := by
+  unfold unalignedGap
+  split
+  · rename_i T a b hgap
+    have hb : b % nsPerSec = 0 := by
+      apply gap_end_seconds (gapOf_eq z n ▸ hgap)
+      have h := hsec
+      unfold WholeSeconds secondsAligned at h
+      simp only [List.all_eq_true, decide_eq_true_eq] at h
+      exact h
+    simp only [decide_eq_false_iff_not, Decidable.not_not]
+    simp only [nsPerSec] at *; omega
+  · rfl
+
+/-- class `unaligned-gap-backwards` needs a sub-second phase too -/
+theorem backwardsInGap_false {z : Zone} {a b : Int} (hsec : WholeSeconds z) (hws : a % nsPerSec = 0) :
+    backwardsInGap z a b = false := by
+  unfold backwardsInGap
+  split
+  · rename_i T a' g hgap
+    have hb : g % nsPerSec = 0 := by
+      apply gap_end_seconds (gapOf_eq z a ▸ hgap)
+      have h := hsec
+      unfold WholeSeconds secondsAligned at h
+      simp only [List.all_eq_true, decide_eq_true_eq] at h
+      exact h
+    simp only [decide_eq_false_iff_not]
+    simp only [nsPerSec] at *; omega
+  · rfl
+
+/-- class `zone-not-ok` never occurs for a `ZoneOK` table -/
+theorem gapLandsInFold_false {z : Zone} (hz : ZoneOK z) (n : Int) : gapLandsInFold z n = false := by
+  unfold gapLandsInFold
+  split
+  · rename_i T a b hgap
+    have hnone : latest? z n = none := (gapOf_isSome_iff hz.sorted hz.spaced n).mp (by rw [hgap]; rfl)
+    obtain ⟨T1, a1, b1, g1, _, _, _, _, g6⟩ := gap_of_none hz.sorted hz.spaced hnone
+    rw [hgap] at g1
+    cases g1
+    have := emod_sec_lt (n - b)
+    rw [g6 _ (emod_sec_nonneg _) (by have := secLt; omega)]
+    simp
+  · rfl
+
+/-! ## D16: bounds can be equal (empty intervals) — not a C09 violation (bounds do not go backwards)
+but C02's "intervals are non-empty" in a zone context -/
 
 /-- refutation of strict non-emptiness: `02:30-02:45` in Europe/Paris on 2024-03-31 — both bounds
 are mapped to `03:00 +02` = 01:00 UTC -/
@@ -377,15 +468,20 @@ theorem D16_empty_interval_witness :
     datetime paris2024 63847536300000000000 = .ok 63847530000000000000 ∧
     localSpanInGap paris2024 63847535400000000000 63847536300000000000 = true := by
   refine ⟨?_, ?_, by decide⟩
-  · apply datetime_steps 30 <;> decide
-  · apply datetime_steps 15 <;> decide
+  · exact datetime_gap_value (z := paris2024) (by decide) (by decide) (by decide)
+      (by decide : gapOf paris2024 63847535400000000000 =
+        some (63847530000000000000, 63847533600000000000, 63847537200000000000))
+  · exact datetime_gap_value (z := paris2024) (by decide) (by decide) (by decide)
+      (by decide : gapOf paris2024 63847536300000000000 =
+        some (63847530000000000000, 63847533600000000000, 63847537200000000000))
 
 /-- the class: a local span that starts inside a gap and ends inside it or at its end, both bounds
-with the same phase within the minute (always so for the evaluator's whole-minute bounds), is
+with the same phase within the second (always so for the evaluator's whole-minute bounds), is
 mapped to an EMPTY interval -/
-theorem D16_class {z : Zone} (hz : ZoneOK z) {a b : Int} (hg : localSpanInGap z a b = true)
-    (hc : (b - a) % nsPerMin = 0) (hb : b ≤ instMax) : datetime z a = datetime z b :=
-  datetime_eq_of_localSpanInGap hz.sorted hz.spaced hg hc hb
+theorem D16_class {z : Zone} (hz : ZoneOK z) (hend : EndsBefore z instMax) {a b : Int}
+    (hg : localSpanInGap z a b = true) (hc : (b - a) % nsPerSec = 0) (hmin : instMin ≤ a) :
+    datetime z a = datetime z b :=
+  datetime_eq_of_localSpanInGap hz.sorted hz.spaced hend hg hc hmin
 
 /-- the class predicate's gap test is exact -/
 theorem gapOf_isSome_iff_not_valid {z : Zone} (hz : ZoneOK z) (n : Int) :
